@@ -466,6 +466,13 @@ def not_found(prog, rep):
                         for a_ in walk_own(fi.node):
                             if isinstance(a_, ast.Assign) and len(a_.targets) == 1 and isinstance(a_.targets[0], ast.Name) and isinstance(a_.value, ast.Constant) and a_.value.value is None and isinstance(parent(a_), ast.If) and parent(a_).test is t_.ast:
                                 carriers.add(a_.targets[0].id)
+                    for a_ in walk_own(fi.node):
+                        # x = {...} if row is not None else None
+                        if isinstance(a_, ast.Assign) and len(a_.targets) == 1 and isinstance(a_.targets[0], ast.Name) and isinstance(a_.value, ast.IfExp):
+                            t_ = norm(a_.value.test)
+                            none_side = a_.value.orelse if t_ in ("row is not None", "row") else a_.value.body if t_ in ("row is None", "not row") else None
+                            if isinstance(none_side, ast.Constant) and none_side.value is None:
+                                carriers.add(a_.targets[0].id)
                     ctests = [n for n in g.nodes if n.kind == "branch" and any(norm(n.ast) in (f"{c_} is None", f"{c_} is not None", c_, f"not {c_}") for c_ in carriers)]
                     if ctests and raises:
                         ct = ctests[-1]
